@@ -177,3 +177,39 @@ def current_map(c, supported):
         if '*' in s:
             lc = s
     return lc
+
+
+# ---------------------------------------------------------------- report ordering
+
+class BalancedReports:
+    """Buffers ctx.report calls of a check and forwards them in a deterministic, class-balanced order: first one
+    report per distinct (kind, signature) in order of first appearance, then all the others in their original
+    order -- so that a report cap downstream can never hide a whole signature class."""
+
+    def __init__(self, ctx):
+        self.ctx = ctx
+        self.real = ctx.report
+        self.items = []
+
+    def __enter__(self):
+        self.ctx.report = self.report
+        return self
+
+    def report(self, kind, signature, detail, failing_input=None, property_fails=None):
+        if not signature:
+            raise common.InfraError('report without a signature: %r' % (detail,))
+        self.items.append((kind, signature, detail, failing_input, property_fails))
+
+    def __exit__(self, *exc):
+        self.ctx.report = self.real
+        seen, first, rest = set(), [], []
+        for it in self.items:
+            key = (it[0], it[1])
+            if key in seen:
+                rest.append(it)
+            else:
+                seen.add(key)
+                first.append(it)
+        for kind, signature, detail, fi, pf in first + rest:
+            self.real(kind, signature, detail, failing_input=fi, property_fails=pf)
+        return False
